@@ -205,7 +205,4 @@ Proof.
   apply andb_split in Hm. destruct Hm as [_ Hm]. cbn [conforms]. exact Hm.
 Qed.
 
-Lemma keep28 : step_keeps L 27 step28.
-Proof. unfold step28. pres_step. Qed.
-
 End WithOracles.
